@@ -664,6 +664,33 @@ def rule_I1(ctx):
     ps = [c for c in ast.walk(loop) if isinstance(c, ast.Call) and norm(c.func) in PARSE]
     ok = len(ps) == 1
     ctx.ob("I1", loop, "AKAI file table: one entry is parsed per iteration", ok, "", inst="akai-table:one-parse")
+    # whether an entry is kept is decided from that entry alone: no decision inside the loop reads a container that the loop
+    # itself fills from earlier entries (a set of "seen" start sectors, names, ...); one damaged entry would then hide an intact one
+    _MUT1 = {"add", "append", "update", "extend", "setdefault", "insert", "discard", "remove", "pop", "popitem", "clear"}
+
+    def _b1(e_):
+        while isinstance(e_, (ast.Subscript, ast.Attribute)):
+            e_ = e_.value
+        return e_.id if isinstance(e_, ast.Name) else None
+    filled = {}
+    for n_ in ast.walk(loop):
+        if isinstance(n_, ast.Call) and isinstance(n_.func, ast.Attribute) and n_.func.attr in _MUT1 and isinstance(n_.func.value, ast.Name):
+            filled.setdefault(n_.func.value.id, n_)
+        elif isinstance(n_, ast.Assign):
+            for t_ in n_.targets:
+                if isinstance(t_, ast.Subscript) and _b1(t_) not in (None, "self"):
+                    filled.setdefault(_b1(t_), n_)
+    tests = [n_.test for n_ in ast.walk(loop) if isinstance(n_, (ast.If, ast.While, ast.IfExp))] + \
+            [i_ for n_ in ast.walk(loop) if isinstance(n_, ast.comprehension) for i_ in n_.ifs]
+    carried = []
+    for t_ in tests:
+        for n_ in ast.walk(t_):
+            if isinstance(n_, ast.Name) and n_.id in filled:
+                carried.append((n_.id, t_))
+    ok1 = not carried and len(filled) >= 1
+    ctx.ob("I1", carried[0][1] if carried else loop, "AKAI file table: keeping an entry is decided from that entry alone (no decision reads a container the loop fills from earlier entries)", ok1,
+           "" if ok1 else (f"the decision `{norm(carried[0][1])[:120]}` reads `{carried[0][0]}`, which the loop fills from earlier entries: a damaged entry can hide an intact one" if carried else "no container filled by the loop recognised (confirmed: the result list)"),
+           inst="akai-table:entry-alone")
     tstream = fe.args.args[1].arg
     parsed_bytes = ok and norm(ps[0].func) == "self.subcon.parse"
     if ok:
